@@ -504,34 +504,42 @@ func (fc *FnCtx) lookupLocal(env *SpecEnv, name string) (TVal, bool) {
 			}
 		}
 	}
-	// 3. debug refs: the closest dominating definition
-	var best *ssa.DebugRef
+	// 3. the closest dominating definition: a phi carrying the variable's name, or a debug ref
+	var best ssa.Value
+	var bestBlock *ssa.BasicBlock
+	consider := func(v ssa.Value, b *ssa.BasicBlock) {
+		if at != nil && !(b == at || b.Dominates(at)) {
+			return
+		}
+		if _, ok := fc.vals[v]; !ok {
+			if _, isC := v.(*ssa.Const); !isC {
+				return
+			}
+		}
+		if best == nil || bestBlock == b || bestBlock.Dominates(b) {
+			best, bestBlock = v, b
+		}
+	}
 	for _, b := range fc.Fn.Blocks {
 		for _, in := range b.Instrs {
-			dr, ok := in.(*ssa.DebugRef)
-			if !ok || dr.IsAddr {
-				continue
-			}
-			obj := dr.Object()
-			if obj == nil || obj.Name() != name {
-				continue
-			}
-			if _, ok := fc.vals[dr.X]; !ok {
-				if _, isC := dr.X.(*ssa.Const); !isC {
+			switch x := in.(type) {
+			case *ssa.Phi:
+				if x.Comment == name {
+					consider(x, b)
+				}
+			case *ssa.DebugRef:
+				if x.IsAddr {
 					continue
 				}
-			}
-			if at != nil && !(b == at || b.Dominates(at)) {
-				continue
-			}
-			if best == nil || best.Block().Dominates(b) {
-				best = dr
+				if obj := x.Object(); obj != nil && obj.Name() == name {
+					consider(x.X, b)
+				}
 			}
 		}
 	}
 	if best != nil {
-		v := fc.val(best.X)
-		return TVal{T: v.T, Ty: best.X.Type(), P: v.P}, true
+		v := fc.val(best)
+		return TVal{T: v.T, Ty: best.Type(), P: v.P}, true
 	}
 	return TVal{}, false
 }
